@@ -43,8 +43,9 @@ RULE = ("random DAG workflows of 2-8 nodes (function nodes with 1-3 inputs fed b
         "Non-trivial: at least one function completed before the cut and at least one after; distinct by content.")
 TRUSTED = ["harness FIFO simulation of the visiting order of each composite (validated by ordered call logs and image contents)",
            "checkpoint cut = copy of the checkpoint file taken inside the storage back end right after it is written"]
-ASSUMPTIONS = ["node functions are deterministic and raise iff an argument is negative; removing the cause = assigning a "
-               "non-negative value to the negative unconnected input of the failed node",
+ASSUMPTIONS = ["node functions are deterministic and raise iff an argument is negative (-6: a KeyboardInterrupt subclass, i.e. "
+               "Ctrl-C landing in the body; -7/-8/-9: ReadinessError/IndexError/KeyError subclasses; else the harness's exception); "
+               "removing the cause = assigning a non-negative value to the negative unconnected input of the failed node",
                "all nodes run locally (a failing child on an executor does not fail its parent: C06/S6)",
                "every macro parameter feeds exactly one child input (no UserInput nodes remain inside macros)",
                "the cache key of a composite is reset by loading (children are re-adopted); not compared between memory and file",
@@ -382,6 +383,8 @@ def _verdict(fn):
         return "ok"
     except _Timeout:
         return "TIMEOUT"
+    except nodes.UserInterrupt:      # a KeyboardInterrupt raised by a node function: must not take the check down
+        return "KeyboardInterrupt"
     except nodes.UserExc:
         return "UserExc"
     except ReadinessError:
@@ -466,6 +469,15 @@ def _twin(tree, workdir):
 
 
 def run_impl(case):
+    ki = nodes.KI_ENABLED
+    nodes.KI_ENABLED = True      # an argument -6 is a Ctrl-C landing in the function body (every run goes through _verdict)
+    try:
+        return _run_impl(case)
+    finally:
+        nodes.KI_ENABLED = ki
+
+
+def _run_impl(case):
     from pyiron_workflow import Workflow
     tree = case["tree"]
     orders(tree)
@@ -764,7 +776,7 @@ def gen_two_failures(rng):
         ins = [["u", i - 1]] if i else []
         if i >= 2 and rng.random() < 0.4:
             ins.append(["u", rng.randrange(i - 1)])
-        ins.append(["c", -rng.randint(1, 9) if i in (i1, i2) else rng.randint(0, 30)])
+        ins.append(["c", _neg(rng) if i in (i1, i2) else rng.randint(0, 30)])
         if len(ins) < 3 and rng.random() < 0.3:
             ins.append(["c", rng.randint(0, 30)])
         kids.append(["L", (CLO if i == ic else 0) + rng.randint(0, 99), ins])
@@ -781,12 +793,18 @@ def gen_two_failures(rng):
     return {"kind": "fail", "tree": ["M", 0, [], kids]}
 
 
+def _neg(rng):
+    """the cause of a failure: -6 = KeyboardInterrupt inside the function, -7/-8/-9 = exceptions of particular classes
+    (ReadinessError, IndexError, KeyError subclasses), anything else negative = the harness's own exception"""
+    return rng.choice([-1, -2, -3, -4, -5, -6, -6, -6, -6, -7, -8, -9])
+
+
 def with_bad(tree, paths, rng):
     t = json.loads(json.dumps(tree))
     for p in paths:
         s = at_spec(t, p)
         js = [j for j, inp in enumerate(s[2]) if inp[0] == "c"]
-        s[2][rng.choice(js)] = ["c", -rng.randint(1, 9)]
+        s[2][rng.choice(js)] = ["c", _neg(rng)]
     return t
 
 
@@ -878,10 +896,11 @@ def shrink_candidates(case):
 
 
 def distribution(results):
-    d = {"fail": 0, "ckpt": 0, "flavour_sequences": {}, "proto": {}, "depth_of_cut_or_failure": {}, "rounds": {}, "with_macros": 0, "nocut": 0,
+    d = {"fail": 0, "ckpt": 0, "interrupts": 0, "flavour_sequences": {}, "proto": {}, "depth_of_cut_or_failure": {}, "rounds": {}, "with_macros": 0, "nocut": 0,
          "nodes": {}}
     for c, enc, v, o in results:
         d[c["kind"]] += 1
+        d["interrupts"] += any(s[0] == "L" and any(i == ["c", -6] for i in s[2]) for p, s in walk(c["tree"]))
         n = sum(1 for _ in walk(c["tree"])) - 1
         d["nodes"][n] = d["nodes"].get(n, 0) + 1
         d["with_macros"] += any(s[0] == "M" for p, s in walk(c["tree"]) if p)
